@@ -228,6 +228,26 @@ theorem empty_returns_everything (s : St) (tid : Nat) (hw : isWaiting s tid = fa
     newEvents s (step s (.empty tid)) = [.emptied tid s.buf] ∧ (step s (.empty tid)).buf = [] := by
   simp [step, stepG, hw, newEvents]
 
+/-! ## the attached event (what `Channel.fileno()` hangs the descriptor on) -/
+
+/-- **Event tracks the buffer.**  Once an event is attached (`set_event`, as `fileno()` does), at every lock-free
+point of every schedule: `event.is_set()` ⇔ the pipe is closed or holds data.  (True since `feed` leaves the event
+alone for empty data; before that fix an empty feed broke it — C24's `empty_feed_witness`.) -/
+theorem event_tracks_buffer (acts : List Act) (b : Bool) (h : (run init acts).event = some b) :
+    b = ((run init acts).closed || !(run init acts).buf.isEmpty) :=
+  evOk_run init acts (by intro b hb; simp [init] at hb) b h
+
+/-- the same from the moment of attachment on, whatever happened before -/
+theorem event_tracks_buffer_after_set_event (s : St) (acts : List Act) (b : Bool)
+    (h : (run (step s .setEvent) acts).event = some b) :
+    b = ((run (step s .setEvent) acts).closed || !(run (step s .setEvent) acts).buf.isEmpty) :=
+  evOk_run _ acts (by intro b hb; simp [step, stepG] at hb; subst hb; simp [step, stepG]) b h
+
+-- an event is really attached and really toggles: set by data, cleared by the draining read, set for good by close
+example :
+    ((run init [.setEvent, .feed [1, 2]]).event, (run init [.setEvent, .feed [1, 2], .read 1 5 none]).event,
+      (run init [.setEvent, .feed [], .close, .read 1 5 none]).event) = (some true, some false, some true) := by decide
+
 /-! ## non-vacuity -/
 
 -- three threads: reader 1 parks, reader 2 parks with a deadline, feed, partial read by 2, the rest by `empty`, close,
